@@ -533,6 +533,11 @@ def dblIsZero : Dbl → Bool
   | .fin _ n _ => n == 0
   | _ => false
 
+/-- `float(str(v))` of an integer: CPython's correctly rounded conversion gives ±inf — with the sign of the integer — from
+2^1024 − 2^970 on (the midpoint between the largest finite double and 2^1024 rounds to even, i.e. up), a finite double below -/
+def intDblClass (v : Int) : DblClass :=
+  if v ≥ 2 ^ 1024 - 2 ^ 970 then .pinf else if v ≤ -(2 ^ 1024 - 2 ^ 970) then .ninf else .num
+
 /-- the cast itself (one function for `cast as`, the constructor function and `castable`) -/
 def cast (ver : Ver) (a : Atom) (t : Target) : Except CErr CVal :=
   match t with
@@ -576,7 +581,8 @@ def cast (ver : Ver) (a : Atom) (t : Target) : Except CErr CVal :=
     | .str s | .untyped s =>
       (match dblCtor ver s with | .ok c => .ok (.dbl c) | .error _ => .error .FORG0001)
     | .dbl x _ => .ok (.dbl (match x with | .nan => .nan | .pinf => .pinf | .ninf => .ninf | .fin _ _ _ => .num))
-    | _ => .ok (.dbl .num)    -- integers go through `float(str(v))` (fix-c10-2): INF beyond the range
+    | .int v => .ok (.dbl (intDblClass v))     -- helpers.get_double: `float(str(int(value)))`
+    | _ => .ok (.dbl .num)
 
 /-- `E castable as xs:T` -/
 def castable (ver : Ver) (a : Atom) (t : Target) : Bool := (cast ver a t).toBool
